@@ -239,7 +239,7 @@ package common
 //@   -- its window and n reaches its threshold; AggregateVerify accepted the signature for `hash` over the transcript in which signer position i is
 //@   -- (index as.Signers[i], the key of that window at that offset)
 //@   ensures [c02-agg-threshold] @C02 err == nil && tx.AggregatedSignature != nil && OrdInputs(&tx.Transaction) ==>
-//@       (forall k int :: {tx.Inputs[k]} 0 <= k && k < len(tx.Inputs) && SignedType(InputUtxoType(store, tx.Inputs[k])) ==> SignersOK(tx.AggregatedSignature.Signers) &&
+//@       (forall k int :: {tx.Inputs[k]} 0 <= k && k < len(tx.Inputs) && SignedType(InputUtxoType(store, tx.Inputs[k])) ==>
 //@           exists lo, n int :: {Witness2(lo, n)} Witness2(lo, n) && n >= InThreshold(store, tx.Inputs[k]) &&
 //@               AggWindow(tx.AggregatedSignature.Signers, lo, n, KeyOff(store, &tx.Transaction, k), KeyOff(store, &tx.Transaction, k) + InKeyCount(store, tx.Inputs[k])))
 //@   ensures [c02-agg-verified] @C02 err == nil && tx.AggregatedSignature != nil && OrdInputs(&tx.Transaction) ==>
@@ -252,9 +252,8 @@ package common
 //@   loop 0 invariant [c02-allval] @C02 forall k, a int :: {tx.Inputs[k], allKeys[a]} 0 <= k && k <= rangeindex && KeyOff(store, &tx.Transaction, k) <= a &&
 //@       a < KeyOff(store, &tx.Transaction, k) + InKeyCount(store, tx.Inputs[k]) ==>
 //@       allKeys[a] != nil && *allKeys[a] == InKeyVal(store, tx.Inputs[k], a - KeyOff(store, &tx.Transaction, k))
-//@   loop 0 invariant [c02-aggok] @C02 tx.AggregatedSignature != nil && len(keySigs) > 0 ==> SignersOK(tx.AggregatedSignature.Signers)
 //@   loop 0 invariant [c02-aggwin] @C02 tx.AggregatedSignature != nil ==> forall k int :: {tx.Inputs[k]} 0 <= k && k <= rangeindex && SignedType(InputUtxoType(store, tx.Inputs[k])) ==>
-//@       SignersOK(tx.AggregatedSignature.Signers) && (exists lo, n int :: {Witness2(lo, n)} Witness2(lo, n) && n >= InThreshold(store, tx.Inputs[k]) &&
+//@       (exists lo, n int :: {Witness2(lo, n)} Witness2(lo, n) && n >= InThreshold(store, tx.Inputs[k]) &&
 //@           AggWindow(tx.AggregatedSignature.Signers, lo, n, KeyOff(store, &tx.Transaction, k), KeyOff(store, &tx.Transaction, k) + InKeyCount(store, tx.Inputs[k])))
 //@   loop 0 invariant [c02-agghas] @C02 tx.AggregatedSignature != nil ==> forall k, i int :: 0 <= k && k <= rangeindex && SignedType(InputUtxoType(store, tx.Inputs[k])) &&
 //@       InAggWindow(store, tx, k, i) ==> exists p *crypto.Key :: {has(keySigs, p)} has(keySigs, p) -- a signer in a window means that a key was collected
@@ -322,7 +321,8 @@ package common
 //@   -- authorised over the payload hash PayloadHashOf(ver). Signature maps: every index i of SignaturesMap[k] is a key index of the spent output and
 //@   -- the signature under i verifies for that key; the number of (distinct) indices reaches the output's threshold. Aggregate signature: exactly the
 //@   -- signers Signers[lo .. lo+n) fall into input k's window of the concatenated key lists, n reaches the threshold, and AggregateVerify accepted
-//@   -- the signature over the transcript that pairs each such signer with the key of that window.
+//@   -- the signature over the transcript that pairs each such signer with the key of that window. (That the signer list is strictly increasing, i.e. the
+//@   -- signers are distinct, is part of the precondition DecodedTx and is re-checked by validateAggregatedSigners: validateUTXO [c02-agg].)
 //@   -- proof guidance (checked): the C02 clauses are established once, right after validateInputs returned, in terms of the entry state (old); the
 //@   -- postconditions below then restate them at every return (for a mint / deposit transaction the single input is not ordinary: vacuous there)
 //@   hint after validateInputs [c02-keyoff-old] forall k int :: {ver.Inputs[k]} 0 <= k && k < len(ver.Inputs) ==>
@@ -335,7 +335,7 @@ package common
 //@   hint after validateInputs [h-c02-threshold] callerr == nil && txType != TransactionTypeMint && txType != TransactionTypeDeposit ==> old(ver.AggregatedSignature == nil ==> forall k int :: {ver.Inputs[k]} 0 <= k && k < len(ver.Inputs) && OrdInput(ver.Inputs[k]) &&
 //@       SignedType(InputUtxoType(store, ver.Inputs[k])) ==> k < len(ver.SignaturesMap) && SigCount(ver.SignaturesMap[k]) >= InThreshold(store, ver.Inputs[k]))
 //@   hint after validateInputs [h-c02-agg-threshold] callerr == nil && txType != TransactionTypeMint && txType != TransactionTypeDeposit ==> old(ver.AggregatedSignature != nil ==> forall k int :: {ver.Inputs[k]} 0 <= k && k < len(ver.Inputs) && OrdInput(ver.Inputs[k]) &&
-//@       SignedType(InputUtxoType(store, ver.Inputs[k])) ==> SignersOK(ver.AggregatedSignature.Signers) &&
+//@       SignedType(InputUtxoType(store, ver.Inputs[k])) ==>
 //@       (exists lo, n int :: {Witness2(lo, n)} Witness2(lo, n) && n >= InThreshold(store, ver.Inputs[k]) &&
 //@           AggWindow(ver.AggregatedSignature.Signers, lo, n, KeyOff(store, &ver.Transaction, k), KeyOff(store, &ver.Transaction, k) + InKeyCount(store, ver.Inputs[k]))))
 //@   hint after validateInputs [h-c02-agg-verified] callerr == nil && txType != TransactionTypeMint && txType != TransactionTypeDeposit ==> old(ver.AggregatedSignature != nil ==> forall k, i int :: {ver.Inputs[k], ver.AggregatedSignature.Signers[i]} 0 <= k && k < len(ver.Inputs) && OrdInput(ver.Inputs[k]) &&
@@ -348,7 +348,7 @@ package common
 //@   ensures [c02-threshold] @C02 err == nil ==> old(ver.AggregatedSignature == nil ==> forall k int :: {ver.Inputs[k]} 0 <= k && k < len(ver.Inputs) && OrdInput(ver.Inputs[k]) &&
 //@       SignedType(InputUtxoType(store, ver.Inputs[k])) ==> k < len(ver.SignaturesMap) && SigCount(ver.SignaturesMap[k]) >= InThreshold(store, ver.Inputs[k]))
 //@   ensures [c02-agg-threshold] @C02 err == nil ==> old(ver.AggregatedSignature != nil ==> forall k int :: {ver.Inputs[k]} 0 <= k && k < len(ver.Inputs) && OrdInput(ver.Inputs[k]) &&
-//@       SignedType(InputUtxoType(store, ver.Inputs[k])) ==> SignersOK(ver.AggregatedSignature.Signers) &&
+//@       SignedType(InputUtxoType(store, ver.Inputs[k])) ==>
 //@       (exists lo, n int :: {Witness2(lo, n)} Witness2(lo, n) && n >= InThreshold(store, ver.Inputs[k]) &&
 //@           AggWindow(ver.AggregatedSignature.Signers, lo, n, KeyOff(store, &ver.Transaction, k), KeyOff(store, &ver.Transaction, k) + InKeyCount(store, ver.Inputs[k]))))
 //@   ensures [c02-agg-verified] @C02 err == nil ==> old(ver.AggregatedSignature != nil ==> forall k, i int :: {ver.Inputs[k], ver.AggregatedSignature.Signers[i]} 0 <= k && k < len(ver.Inputs) && OrdInput(ver.Inputs[k]) &&
